@@ -1486,3 +1486,35 @@ Theorem C06_reported_long_refuted :
 Proof. exact short_reported_long_refuted. Qed.
 Print Assumptions C06_reported_long_refuted.
 
+
+(* ---- collision form (Proofs/Collision.v; depends on Classical_Prop.classic and on nothing else): the idealised hypothesis
+   cv_injective is dropped; under 32-byte outputs and a correct byte comparison the conclusion holds OR the hash functions
+   have a collision between two distinct valid inputs ---- *)
+From BaoV Require Import Proofs.Collision.
+Theorem C06_reported_is_true_or_collision : forall (HO : hops), cv_len32 HO -> beq_correct HO ->
+  (forall (data : bytes HO) (bs : N) (ob : outboard HO),
+  blen HO data <= 2 ^ 63 -> bs <= 10 -> ob_root ob = root_hash HO data ->
+  forall q : ranges, wf_ranges q = true ->
+  ob_tree ob = mkTree (blen HO data) bs -> loads_ok HO ob (blen HO data) bs ->
+  forall (d : bytes HO) (a e : N), blen HO d = blen HO data -> 2 <= sp_blocks (blen HO data) bs ->
+  In (a, e) (fst (valid_ranges HO ob d q)) ->
+  chunk_bytes HO d a e = chunk_bytes HO data a e /\
+  exists ga, ga < sp_blocks (blen HO data) bs /\ a = grp_start bs ga /\ e = grp_end (blen HO data) bs ga /\
+             path_true HO data bs ob ga) \/
+  collision HO.
+Proof. intros HO Hl Hb. apply (or_collision HO _ Hl Hb). exact (C06_reported_is_true HO). Qed.
+Print Assumptions C06_reported_is_true_or_collision.
+
+Theorem C06_outboard_reported_is_true_or_collision : forall (HO : hops), cv_len32 HO -> beq_correct HO ->
+  (forall (data : bytes HO) (bs : N) (ob : outboard HO),
+  blen HO data <= 2 ^ 63 -> bs <= 10 -> ob_root ob = root_hash HO data ->
+  forall q : ranges, wf_ranges q = true ->
+  ob_tree ob = mkTree (blen HO data) bs -> loads_ok HO ob (blen HO data) bs ->
+  forall a e : N, 2 <= sp_blocks (blen HO data) bs ->
+  In (a, e) (fst (valid_outboard_ranges HO ob q)) ->
+  exists ga, ga < sp_blocks (blen HO data) bs /\ a = grp_start bs ga /\ e = grp_end (blen HO data) bs ga /\
+             path_true HO data bs ob ga) \/
+  collision HO.
+Proof. intros HO Hl Hb. apply (or_collision HO _ Hl Hb). exact (C06_outboard_reported_is_true HO). Qed.
+Print Assumptions C06_outboard_reported_is_true_or_collision.
+
